@@ -343,6 +343,40 @@ pub(crate) fn forcefully_terminate_answer(
     incr!(names::h2::SIGNAL_WRITABLE_REARMED_FORCEFULLY_TERMINATE_ANSWER);
 }
 
+/// Verification hook (add-only, compiled only with `--cfg sozu_verif`): lets an
+/// out-of-tree harness call the crate-private end-of-stream decision and the
+/// two answer helpers on a real [`Stream`]. No production code path uses it.
+#[cfg(sozu_verif)]
+pub mod verif {
+    use super::{H2Error, HttpAnswers, Readiness, Stream};
+    use crate::protocol::mux::shared::{EndStreamAction, end_stream_decision as decide};
+
+    /// `shared::end_stream_decision` as `(tag, status)`: 0 ForwardTerminated,
+    /// 1 CloseDelimited, 2 ForwardUnterminated, 3 SendDefault(status), 4 Reconnect.
+    pub fn end_stream_decision(stream: &Stream) -> (u8, u16) {
+        match decide(stream) {
+            EndStreamAction::ForwardTerminated => (0, 0),
+            EndStreamAction::CloseDelimited => (1, 0),
+            EndStreamAction::ForwardUnterminated => (2, 0),
+            EndStreamAction::SendDefault(status) => (3, status),
+            EndStreamAction::Reconnect => (4, 0),
+        }
+    }
+
+    pub fn set_default_answer(
+        stream: &mut Stream,
+        readiness: &mut Readiness,
+        code: u16,
+        answers: &HttpAnswers,
+    ) {
+        super::set_default_answer(stream, readiness, code, answers)
+    }
+
+    pub fn forcefully_terminate_answer(stream: &mut Stream, readiness: &mut Readiness) {
+        super::forcefully_terminate_answer(stream, readiness, H2Error::InternalError)
+    }
+}
+
 #[cfg(test)]
 mod tests {
     use std::{cell::RefCell, rc::Rc};
